@@ -43,7 +43,7 @@ def required_cells(tier):
     cells = ['law:reflexive', 'law:exact', 'law:monotone:ELLIPSIS', 'law:monotone:NORMALIZE_WHITESPACE',
              'law:monotone:IGNORE_WHITESPACE', 'law:monotone:NORMALIZE_REPR', 'law:monotone:ACCEPT_BLANKLINE',
              'law:nonblank', 'law:trailing-whitespace', 'ref:match', 'ref:nomatch', 'e2e:match', 'e2e:nomatch', 'ellipsis-structured',
-             'rewrite:many-wildcards']
+             'rewrite:many-wildcards', 'law:flags-as-they-are-now']
     cells += ['ref:flags:%s' % ''.join(map(str, b)) for b in ALLBITS]
     return cells
 
@@ -91,6 +91,28 @@ class Judge(object):
         for bits in ALLBITS:
             out[bits] = bool(co(got, want, st[bits]))
         self.n_calls += 32
+        self.n_tables = getattr(self, 'n_tables', 0) + 1
+        if self.n_tables % 4 == 0:
+            # the verdict is a function of the texts and the flags as they are NOW: one state object whose flags are
+            # switched between the calls (what a directive does to the state of a running doctest) gives the same table
+            from xdoctest import directive
+            one = getattr(self, 'one_state', None)
+            if one is None:
+                one = self.one_state = directive.RuntimeState()
+            order = ALLBITS if self.n_tables % 8 == 0 else ALLBITS[::-1]
+            for bits in order:
+                for f, b in zip(FLAGS, bits):
+                    one[f] = bool(b)
+                v = bool(co(got, want, one))
+                if v != out[bits]:
+                    self.ctx.violation('stale-verdict', 'check_output(%r, %r) under flags %s is %s with a state object of its '
+                                       'own and %s with a state object whose flags were switched to these values just before '
+                                       'the call' % (got, want, dict(zip(FLAGS, bits)), out[bits], v),
+                                       {'kind': 'pair', 'got': got, 'want': want}, flags=list(bits))
+                    break
+            else:
+                self.counts['law:flags-as-they-are-now'] = self.counts.get('law:flags-as-they-are-now', 0) + 32
+            self.n_calls += 32
         return out
 
     def reflexive(self, x):
